@@ -12,6 +12,12 @@ Driver module for C01 (font round trip) and the font level of C04.  Line format:
 namespace Driver.C01
 open Proto RT
 
+/-- the correspondence runs the model on opaque tokens -/
+abbrev Font := RT.Font tokenParts
+abbrev Layer := RT.Layer tokenParts
+abbrev GlyphE := RT.GlyphE tokenParts
+abbrev Tree := RT.Tree tokenParts
+
 /-! ### doubles -/
 
 partial def adjustUp (a : Rat) (e : Int) : Int := if a * pow2 (-e) < 9007199254740992 then e else adjustUp a (e + 1)
